@@ -97,6 +97,10 @@ static void ResetAdr(tAdrParts* pAdrParts) {
 }
 
 static Boolean ChkAdr(Byte Mask, tAdrParts* pAdrParts) {
+    if (pAdrParts->Mode == eModeNone) {
+        /* operand could not be evaluated, error already reported: no code */
+        return False;
+    }
     if ((pAdrParts->Mode != 0xff) && ((Mask & (1 << pAdrParts->Mode)) == 0)) {
         ResetAdr(pAdrParts);
         WrError(ErrNum_InvAddrMode);
